@@ -687,13 +687,26 @@ func main() {
 	} else {
 		c.Note("p+570 is not an unsafe prime passing the residue table: case skipped")
 	}
-	for g := 2; g <= 7; g++ {
-		if crypto.CheckGP(g, p) != nil {
-			bad = append(bad, struct {
-				g    int
-				p    *big.Int
-				note string
-			}{g, p, fmt.Sprintf("invalid-g=%d-not-a-residue", g)})
+	// every group x every base -1..9: the base is admissible iff 2 <= g <= 7 and g is a quadratic
+	// residue mod p, decided here by Euler's criterion g^((p-1)/2) mod p = 1 with math/big
+	// (independent of crypto.CheckGP and of the residue table above, which must agree with it).
+	for _, gr := range groups {
+		half := new(big.Int).Rsh(gr.p, 1)
+		for g := -1; g <= 9; g++ {
+			euler := g >= 2 && g <= 7 && new(big.Int).Exp(big.NewInt(int64(g)), half, gr.p).Cmp(one) == 0
+			if euler != (g >= 2 && g <= 7 && residueOK(g, gr.p)) {
+				c.Note(fmt.Sprintf("harness self-check: residue table and Euler criterion disagree for g=%d, group %s", g, gr.name))
+			}
+			if !euler {
+				bad = append(bad, badT{g, gr.p, fmt.Sprintf("invalid-g=%d-%s", g, gr.name)})
+				continue
+			}
+			// admissible base: Hash must answer (and equal the specification)
+			in := hashIn{Password: hx16([]byte("base")), SrpB: hx16(pad(new(big.Int).Rsh(gr.p, 2))), Random: hx16(c.Rng.Bytes(256)),
+				Salt1: hx16(c.Rng.Bytes(8)), Salt2: hx16(c.Rng.Bytes(16)), G: g, P: gr.hex, Note: fmt.Sprintf("valid-g=%d-%s", g, gr.name)}
+			if c.Thorough() || g == gr.gens[len(gr.gens)-1] || g == 4 {
+				h.hashCase(in, true, false)
+			}
 		}
 	}
 	for i, b := range bad {
